@@ -31,4 +31,16 @@ inductive SepFlagPlacement
   | groupStartOnly              -- inside `if (groupStart) { … }`: only for the first test of a group
 deriving Repr, DecidableEq, Inhabited
 
+/-- the command-line switches `CommandLineTestRunner::initializeTestRun` acts on -/
+inductive CliSwitch
+  | verbose | veryVerbose | color | separateProcess | runIgnored | crashOnFail
+deriving Repr, DecidableEq, Inhabited
+
+/-- one `if (arguments_->isX()) action;` statement of `initializeTestRun`; `isElse` when it is
+    spelled `else if` (i.e. coupled to the statement before it) -/
+structure InitStmt where
+  switch : CliSwitch
+  isElse : Bool
+deriving Repr, DecidableEq, Inhabited
+
 end SepProc
